@@ -530,6 +530,20 @@ pub fn run_writer(spec: &FileSpec, sink: &SimSink, mut observe: impl FnMut(&Step
 			Ok(Err(e)) => push_step(&mut run, end_idx, Err(e.to_string()), None),
 			Err(p) => push_step(&mut run, end_idx, Err("panic".into()), Some(p)),
 		},
+		// one history in four that ends by drop ends by a drop DURING UNWINDING: the caller panics (its own bug, between
+		// two calls) while the writer is alive. "After dropping it, the file contains all of them" has no exception for
+		// the reason of the drop.
+		End::Drop if spec.sync[1] % 4 == 0 => {
+			let r = catch(move || {
+				let _alive_until_the_unwind = writer;
+				std::panic::panic_any("HARNESS-UNWIND: the caller panics while the writer is alive");
+			});
+			match r {
+				Err(p) if p.contains("HARNESS-UNWIND") => push_step(&mut run, end_idx, Ok(()), None),
+				Err(p) => push_step(&mut run, end_idx, Err("panic".into()), Some(p)),
+				Ok(()) => push_step(&mut run, end_idx, Err("HARNESS: the unwind did not happen".into()), None),
+			}
+		}
 		End::Drop => match catch(|| drop(writer)) {
 			Ok(()) => push_step(&mut run, end_idx, Ok(()), None),
 			Err(p) => push_step(&mut run, end_idx, Err("panic".into()), Some(p)),
